@@ -33,6 +33,11 @@ Theorem C07_reader_uses_window : forall key st f st',
 Proof. exact keyed_accept_iff. Qed.
 Print Assumptions C07_reader_uses_window.
 
+(* a frame the keyed reader refuses (not v2, unsigned, wrongly signed, too old) never moves the window *)
+Theorem C07_refused_frames_keep_register : forall key st f code st', check_key key st f = (Some code, st') -> st' = st.
+Proof. exact refused_keeps_register. Qed.
+Print Assumptions C07_refused_frames_keep_register.
+
 (* outgoing timestamps are 10-microsecond ticks of the elapsed time, monotone in the clock *)
 Theorem C07_out_ts_units : forall ns, ns < 18446744073709551616 -> sig_ticks_of_ns ns = ns / 10000.
 Proof. exact sig_ticks_units. Qed.
